@@ -56,7 +56,7 @@ EXPECTED_PROBES = ["fill.day_clipped", "fill.weekday_moved",
                    "fuzzy.tokens", "fuzzy.plain_same"]
 
 CLASSES = {
-    "config": dict(quick=3000, thorough=100000, timeout=60),
+    "config": dict(quick=20000, thorough=500000, timeout=60),
 }
 
 # (TZ value, local abbreviations, an ambiguous wall time [y,m,d,H,M] or None)
